@@ -81,11 +81,11 @@ def run(ctx: Ctx):
         dkeys = {k.value: v for k, v in zip(n.value.keys, n.value.values) if isinstance(k, ast.Constant)}
         if "epoch" not in dkeys:
             continue
-        tgt = n.targets[0]
-        reaches = (isinstance(tgt, ast.Subscript) and attr_chain(tgt.value) == "self.cache_hist") or (
+        # (any target of a chained assignment `entry = self.cache_hist[epoch] = {...}`)
+        reaches = any((isinstance(tgt, ast.Subscript) and attr_chain(tgt.value) == "self.cache_hist") or (
             isinstance(tgt, ast.Name) and any(
-                isinstance(m, ast.Assign) and isinstance(m.targets[0], ast.Subscript) and attr_chain(m.targets[0].value) == "self.cache_hist"
-                and isinstance(m.value, ast.Name) and m.value.id == tgt.id for m in own_nodes(cache.node)))
+                isinstance(m, ast.Assign) and any(isinstance(t_, ast.Subscript) and attr_chain(t_.value) == "self.cache_hist" for t_ in m.targets)
+                and isinstance(m.value, ast.Name) and m.value.id == tgt.id for m in own_nodes(cache.node))) for tgt in n.targets)
         if not reaches:
             continue
         if isinstance(dkeys["epoch"], ast.Constant) and dkeys["epoch"].value == 0:
@@ -145,9 +145,11 @@ def run(ctx: Ctx):
                     # the row being restored: self.cache_hist[<row epoch>] itself or a local that is stored there
                     row_targets = {f"self.cache_hist[{e_}]" for e_ in row_epoch_names}
                     for m_ in ast.walk(rl):
-                        if isinstance(m_, ast.Assign) and isinstance(m_.targets[0], ast.Subscript) and u(m_.targets[0]) in set(row_targets) \
-                                and isinstance(m_.value, ast.Name):
-                            row_targets.add(m_.value.id)
+                        if isinstance(m_, ast.Assign) and any(isinstance(t_, ast.Subscript) and u(t_) in set(row_targets) for t_ in m_.targets):
+                            if isinstance(m_.value, ast.Name):
+                                row_targets.add(m_.value.id)
+                            # chained: `entry = self.cache_hist[epoch] = {...}` makes `entry` the stored row
+                            row_targets |= {t_.id for t_ in m_.targets if isinstance(t_, ast.Name)}
                     okk = u(t.slice) == kn and u(t.value) in row_targets and isinstance(st_.value, ast.Call) \
                         and u(st_.value.func) == tn and len(st_.value.args) == 1 and isinstance(st_.value.args[0], ast.Subscript) \
                         and u(st_.value.args[0].slice) == kn and u(st_.value.args[0].value) == rl.target.id
